@@ -45,6 +45,7 @@ const (
 	stPanic
 	stSkip
 	stDeadlock
+	stBudget // the operation exceeded its step budget (did not terminate)
 )
 
 type argRec struct {
